@@ -2,7 +2,7 @@
    Directives used: those of ExtrOcamlBasic only (Extract Inductive for bool, option, unit, list, prod, sumbool, ...);
    no Extract Constant.  N/Z/positive/nat stay the extracted inductives. *)
 From Coq Require Import ExtrOcamlBasic.
-From PieV Require Import Model.Dag Model.Build Model.Dsl Model.Tracker.
+From PieV Require Import Model.Dag Model.Build Model.Dsl Model.Tracker Model.Checkers Model.MapRes Model.FileRes.
 Extraction "../model_driver/model.ml"
   Dag.empty Dag.add_node Dag.remove_node Dag.add_edge Dag.remove_edge Dag.remove_outgoing
   Dag.contains_node Dag.contains_edge Dag.contains_transitive_edge Dag.get_outgoing_edges Dag.get_incoming_edges
@@ -12,4 +12,10 @@ Extraction "../model_driver/model.ml"
   Tracker.match_read_start Tracker.match_read_end Tracker.match_write_start Tracker.match_write_end Tracker.is_execute_of
   Tracker.match_execute_start Tracker.match_execute_end Tracker.first_require Tracker.first_read Tracker.first_write Tracker.first_execute
   Tracker.range_of Tracker.first_read_end Tracker.first_write_end Tracker.first_execute_end Tracker.tindex
-  Tracker.any_execute Tracker.any_execute_of Tracker.one_execute_of Tracker.ktask Tracker.kres Tracker.composite_step.
+  Tracker.any_execute Tracker.any_execute_of Tracker.one_execute_of Tracker.ktask Tracker.kres Tracker.composite_step
+  Checkers.inconsistent
+  MapRes.mstep MapRes.ms_init
+  FileRes.open_read FileRes.reader_rest FileRes.open_write FileRes.write_bytes
+  FileRes.ex_stamp FileRes.ex_stamp_reader FileRes.ex_stamp_writer FileRes.ex_check
+  FileRes.mo_stamp FileRes.mo_stamp_reader FileRes.mo_stamp_writer FileRes.mo_check
+  FileRes.ha_stamp FileRes.ha_stamp_reader FileRes.ha_stamp_writer FileRes.ha_check FileRes.optN_eqb FileRes.optH_eqb.
